@@ -23,4 +23,32 @@ CHECKS = {
     },
 }
 
+CHECKS["C14"] = {
+    "pkg": "./checks/c14",
+    "level": "exploration",
+    "rule": "rapid value generators for header, transaction (all 11 types, box payloads, reimbursed, 0-3 real signatures), change logs of every type "
+            "(produced by the real account manager from generated setter calls, incl. empty profile / nil asset / nil equity / empty signers, optionally merged and finalised), "
+            "whole blocks, account records, deputy nodes, confirm / handshake / get-blocks messages, addresses. Oracles: decode(encode(v)) equal (same dynamic types), same hash, same "
+            "recovered signers, encode(decode(encode(v))) == encode(v), JSON round trip of transactions (valid UTF-8 only), address text round trip incl. lower case. "
+            "Canonicity: for 16 primitive/composite kinds and byte strings made from valid encodings by 8 classic non-canonical rewritings (or arbitrary), decode ok => re-encode == input. "
+            "Robustness: 17 decoders on intact / truncated / byte-replaced / spliced / huge-length / arbitrary inputs never panic. "
+            "non-trivial = value with an elided / optional / empty field, or a byte string some decoder accepted or that was derived from a valid encoding; distinct by encoding digest.",
+    "level_text": "Generated round-trip, canonicity (metamorphic: one byte string per value) and never-panics checks over every consensus object and wire message, "
+                  "tens of thousands of values per run plus coverage-guided native fuzzing of all decoders in the thorough tier. Exploration, not proof: the value space is unbounded.",
+    "level_note": "Trusted: the generators produce the dynamic value shapes the product creates (change logs come from the real SafeAccount setters); equality is judged by a type-tagged rendering; "
+                  "JSON is only compared for strings that are valid UTF-8 (JSON cannot carry anything else).",
+    "technique": "rapid round-trip / metamorphic canonicity properties + native go fuzzing with the oracle inside the target",
+    "assumptions": ["JSON round trip is only demanded for valid UTF-8 strings", "account records are compared as values (their encoding order follows map iteration and they are not hashed)"],
+    "units": [
+        {"name": "header", "test": "TestC14Header", "quick": {"checks": 5000}, "thorough": {"checks": 100000, "shards": 2, "timeout": 1800}},
+        {"name": "tx", "test": "TestC14Tx", "quick": {"checks": 4000}, "thorough": {"checks": 60000, "shards": 4, "timeout": 1800}},
+        {"name": "changelog", "test": "TestC14ChangeLog", "quick": {"checks": 4000}, "thorough": {"checks": 60000, "shards": 4, "timeout": 1800}},
+        {"name": "account+messages", "test": "TestC14AccountAndMessages", "quick": {"checks": 4000}, "thorough": {"checks": 60000, "shards": 2, "timeout": 1800}},
+        {"name": "address", "test": "TestC14Address", "quick": {"checks": 5000}, "thorough": {"checks": 200000, "timeout": 1800}},
+        {"name": "canonical", "test": "TestC14Canonical", "quick": {"checks": 20000}, "thorough": {"checks": 300000, "shards": 4, "timeout": 1800}},
+        {"name": "robust", "test": "TestC14Robust", "quick": {"checks": 10000}, "thorough": {"checks": 150000, "shards": 4, "timeout": 1800}},
+        {"name": "fuzz", "fuzz": "FuzzDecoders", "test": "FuzzDecoders", "thorough": {"fuzztime": "180s", "workers": 16, "timeout": 600}},
+    ],
+}
+
 NOT_APPLICABLE = {}
